@@ -228,32 +228,3 @@ theorem pow2UpTo_tie (x : Int) : bigintPow2UpTo x = some ((pow2UpTo x).map Int.o
   simpa using this
 
 end AC.BigintsTie
-
-namespace AC.BigintsTie
-open AC.Gen.Program AC.GoPrim P
-
-/-- translated `pruneuses` (the in-place filter of opt.go) = filtering out the operations that use `i` -/
-theorem pruneuses_loop_tie (i : Int) : ∀ (ops ops0 acc : List GOp),
-    optpruneuses_loop1 ops ops0 i acc = some (acc ++ ops.filter (fun o => !(o.I == i || o.J == i))) := by
-  intro ops
-  induction ops with
-  | nil => intro ops0 acc; simp [optpruneuses_loop1]
-  | cons o ops ih =>
-    intro ops0 acc
-    simp only [optpruneuses_loop1, opUses, bind, Option.bind, pure, List.filter_cons]
-    by_cases h : (o.I == i || o.J == i) = true
-    · simp only [h, Bool.not_true, Bool.false_eq_true, if_false]
-      exact ih ops0 acc
-    · have hf : (o.I == i || o.J == i) = false := by simpa using h
-      simp only [hf, Bool.not_false, if_true]
-      have := ih ops0 (acc ++ [o])
-      simpa using this
-
-theorem pruneuses_tie (ops : List GOp) (i : Int) :
-    optpruneuses ops i = some (ops.filter (fun o => !(o.I == i || o.J == i))) := by
-  unfold optpruneuses
-  have hs : sliceTo ops 0 = some [] := by simp [sliceTo]
-  simp only [hs, bind, Option.bind]
-  simpa using pruneuses_loop_tie i ops ops []
-
-end AC.BigintsTie
